@@ -47,6 +47,9 @@ MC = [
      ["GetStatus", "FetchLocal", "UpdateKeyLocal", "Acquire", "StoreCreateTmp", "StoreWriteTmp", "StoreRename", "ReadBack", "Attest",
       "UpdateKeyMem", "Rotate", "Crash", "Damage", "Restart"]),
     ("MC_KeyKeeper", "KeyKeeper_live.cfg", None, ["Attest", "Crash", "Restart", "Damage"]),
+    # the design that carries an acquired key over to the next poll and attests it without storing it again must break
+    # the latch clause when the store step failed in between
+    ("MC_KeyKeeper", "KeyKeeper_reuse.cfg", ("LatchedIsRecoverable", "AttestOnlyAfterStoreAndReadBack"), None),
 ]
 
 JOBS_QUICK = [
@@ -55,8 +58,12 @@ JOBS_QUICK = [
     ("restart-with-key", "none"), ("restart-with-key", "status-invalid"),
     ("rotation", "none"), ("rotation", "acquire-err"), ("rotation", "attest-lost"), ("rotation-unnamed", "none"),
     ("unreadable-local-key", "none"), ("unreadable-local-key", "attest-err"), ("unreadable-local-key", "attest-lost"),
+    # transient storage faults: one call of the store / read-back step fails, the next poll finds the disk healthy
+    ("fresh", "store-rename-fails"), ("fresh", "readback-fails"), ("rotation", "store-create-fails"),
 ]
-JOBS_MORE = [("fresh", "status-invalid"), ("fresh", "status-reset"), ("fresh", "attest-reset"), ("restart-with-key", "status-fail"),
+JOBS_MORE = [("fresh", "store-create-fails"), ("fresh", "store-write-fails"), ("fresh", "store-rename-fails-twice"),
+             ("fresh", "store-rename-fails+attest-lost"), ("rotation", "readback-fails"), ("unreadable-local-key", "store-rename-fails"),
+             ("fresh", "status-invalid"), ("fresh", "status-reset"), ("fresh", "attest-reset"), ("restart-with-key", "status-fail"),
              ("restart-with-key", "status-reset"), ("rotation", "attest-err"), ("rotation", "acquire-malformed"),
              ("rotation-unnamed", "attest-lost"), ("unreadable-local-key", "acquire-err"), ("unreadable-local-key", "status-fail")]
 
